@@ -315,6 +315,89 @@ func c10MultiScope(e enum.Embed, k, n int, deltas []float64, level int) *drv.Sco
 		}}
 }
 
+// c10LongScope: the same polylines with every coordinate and the delta multiplied by K = 2^27 and centred on the
+// origin (coordinates of both signs up to 2.7e9, segments of 2.7e9 .. 7.6e9 units: squares of segment lengths
+// exceed 2^63). The library is called on the scaled input; its result is divided by K (rounded: at most half a
+// base unit, inside the 2-unit band) and held against the base line by the ordinary oracle.
+func c10LongScope() *drv.Scope {
+	const K = int64(1) << 27
+	e := enum.Eax20
+	n2, n3 := enum.PathCount(3, 2), enum.PathCount(3, 3)
+	var w offWorker
+	var buf Path
+	var cfgs []strokeCfg
+	for _, d := range []float64{3, 7.5} {
+		for _, et := range c10AllEnds {
+			for _, jt := range []clipper.JoinType{clipper.Miter, clipper.Square, clipper.Bevel, clipper.Round} {
+				cfgs = append(cfgs, strokeCfg{d, jt, et})
+			}
+		}
+	}
+	get := func(idx uint64) Path {
+		if idx < n2 {
+			buf = enum.UnrankPath(idx, 3, 2, e, buf)
+		} else {
+			buf = enum.UnrankPath(idx-n2, 3, 3, e, buf)
+		}
+		return buf
+	}
+	divRound := func(v int64) int64 {
+		if v >= 0 {
+			return (v + K/2) / K
+		}
+		return -((-v + K/2) / K)
+	}
+	return &drv.Scope{Name: "stroke/P(3,2..3)/E_ax20 scaled by 2^27 and centred on the origin", Level: 3, Size: n2 + n3,
+		Show: func(idx uint64) any {
+			return map[string]any{"base line": pathLit(get(idx)), "transformation": "p -> 2^27 * (p - (20,20)), delta -> 2^27 * delta", "configs": "deltas [3 7.5] x 4 end types x 4 join types"}
+		},
+		Run: func(c *drv.Ctx, idx uint64) {
+			base := enum.ClonePath(get(idx))
+			centred := make(Path, len(base))
+			scaled := make(Path, len(base))
+			for i, q := range base {
+				centred[i] = Pt{X: q.X - 20, Y: q.Y - 20}
+				scaled[i] = Pt{X: centred[i].X * K, Y: centred[i].Y * K}
+			}
+			nt := false
+			for _, cfg := range cfgs {
+				out := clipper.InflatePaths64(Paths{scaled}, cfg.delta*float64(K), cfg.jt, cfg.et)
+				c.Exec(1)
+				c.Output(enum.HashPaths(out))
+				if sd := structuralDefect(out); sd != "" {
+					c.Fail("degenerate-path", cfg.String(), "%s: %s; scaled line %v", cfg.String(), sd, scaled)
+					continue
+				}
+				var back Paths
+				for _, p := range out {
+					var q Path
+					for _, v := range p {
+						r := Pt{X: divRound(v.X), Y: divRound(v.Y)}
+						if len(q) == 0 || q[len(q)-1] != r {
+							q = append(q, r)
+						}
+					}
+					for len(q) > 1 && q[0] == q[len(q)-1] {
+						q = q[:len(q)-1]
+					}
+					if len(q) >= 3 {
+						back = append(back, q)
+					}
+				}
+				kind, detail, saw := c10Check(&w, centred, back, cfg)
+				if kind != "" {
+					c.Fail(kind, cfg.String(), "%s (input and delta scaled by 2^27, result divided by 2^27): %s; base line %v, scaled result %v", cfg.String(), detail, centred, out)
+				}
+				if saw {
+					nt = true
+				}
+			}
+			if nt {
+				c.Nontriv()
+			}
+		}}
+}
+
 // c10HugePointScope: a single point far outside the float64-exact range: the square / circle around it is built by
 // adding small offsets to the integer centre, so it must come out as exact as around a small centre.
 func c10HugePointScope() *drv.Scope {
@@ -349,14 +432,14 @@ func init() {
 	drv.Register(&drv.Check{
 		ID:    "C10",
 		Title: "Open-path offsetting produces the stroke of half-width delta",
-		Rule: "every polyline of 1-3 (quick) / 1-4 (thorough) points over L(4) at stride 20 (duplicates, collinear runs and 180-degree reversals are members), axis-aligned and sheared, x end types {Joined, Butt, Square, Round} x 4 join types x delta in {0.5, 1, 3, 7.5, 12}, plus three paths per call (a point, a line of P(3,3), its shifted copy: each part of the result is held against its own path), plus every 4-vertex polyline over L(3) with Joined and Butt ends (quick), plus a single point at centres up to 2^60 in magnitude (result translated back exactly); " +
+		Rule: "every polyline of 1-3 (quick) / 1-4 (thorough) points over L(4) at stride 20 (duplicates, collinear runs and 180-degree reversals are members), axis-aligned and sheared, x end types {Joined, Butt, Square, Round} x 4 join types x delta in {0.5, 1, 3, 7.5, 12}, plus three paths per call (a point, a line of P(3,3), its shifted copy: each part of the result is held against its own path), plus every 4-vertex polyline over L(3) with Joined and Butt ends (quick), plus a single point at centres up to 2^60 in magnitude (result translated back exactly), plus P(3,2..3) with coordinates and delta scaled by 2^27 and centred on the origin (segments up to 7.6e9 units; result divided by 2^27 and held against the base line); " +
 			"oracle on a pitch-1 witness lattice with exact winding of the result and float64 distances (1e-6 guard): a point whose foot on a segment is interior and whose normal distance is <= delta - tol is inside (Joined: closing segment included); a point farther than k*delta + tol from the line is outside; Square ends: the delta-tol square beyond each end is inside; Round ends: the delta-tol disc is inside; Butt ends: a point more than tol beyond an end and farther than k*delta+tol from the rest of the line is outside; a single point: square (disc for Round ends) of radius delta-tol inside, outside beyond sqrt2*delta+tol (delta+tol); result canonical. tol = 2 + arc tolerance. non-trivial = line for which some configuration has a point that must be inside",
 		Assumptions:      []string{"<= 4 points; float64 distances; witness pitch 1"},
 		RequiredCounters: []string{"lines_with_an_inside_requirement", "multi_path_calls_with_an_inside_requirement"},
 		Scopes: func(tier string) []*drv.Scope {
 			ds := []float64{0.5, 1, 3, 7.5, 12}
 			out := []*drv.Scope{c10Scope(enum.Eax20, 4, 1, ds, 1), c10Scope(enum.Eax20, 4, 2, ds, 2), c10Scope(enum.Esh20, 4, 2, ds, 2), c10Scope(enum.Eax20, 4, 3, []float64{1, 7.5}, 3),
-				c10MultiScope(enum.Eax20, 3, 3, []float64{7.5}, 3), c10HugePointScope()}
+				c10MultiScope(enum.Eax20, 3, 3, []float64{7.5}, 3), c10HugePointScope(), c10LongScope()}
 			if tier == "quick" {
 				// 4-vertex polylines: the smallest even vertex count whose Joined stroke has a middle segment
 				out = append(out, c10ScopeET(enum.Eax20, 3, 4, []float64{3, 7.5}, []clipper.EndType{clipper.Joined, clipper.Butt}, 4))
